@@ -144,7 +144,9 @@ namespace pika::threads::detail {
         // about it.
         PIKA_ASSERT(std::uncaught_exceptions() == 0);
 
+        PIKA_VERIF_PRE("place.lw", thrd_data);
         thrd_data->set_last_worker_thread_num(pika::get_local_worker_thread_num());
+        PIKA_VERIF_POST("place.lw", thrd_data, thrd_data->get_last_worker_thread_num(), 0);
 
         thread_restart_state statex = thread_restart_state::unknown;
 
